@@ -555,3 +555,30 @@ def rule_consonance(ctx, mod):
                 ctx.check(not bad, R, "%s[%s,*]" % (name, n1), fi.where(), "%s(%r, <35 spellings>)" % (name, n1),
                           "%d of the pairs answer differently from the statement's table on measure(): e.g. %s vs %s (measure %s, flag %s) gives %s, required %s"
                           % ((len(bad),) + ((n1,) + bad[0][:1] + bad[0][1:3] + (bad[0][3], bad[0][4]) if bad else ("", "", "", "", "", ""))))
+
+    # the answers do not depend on what was asked before: all four predicates, with the flag set, cleared and left out,
+    # through ONE interpreter (module-level tables a predicate may keep persist as at run time), against the same table
+    twelve = ["C", "C#", "D", "D#", "E", "F", "F#", "G", "G#", "A", "A#", "B"]
+    out = []
+
+    def history(it):
+        for flag in (True, False, None, True, None):
+            for name, (oracle, has_flag) in specs.items():
+                for m, n2 in enumerate(twelve):
+                    args = ["C", n2] + ([flag] if (has_flag and flag is not None) else [])
+                    eff = flag if flag is not None else (False if name == "is_dissonant" else True)
+                    try:
+                        got = ("return", it.call_function(mod.func(name), args, {}))
+                    except RaiseEx as r:
+                        got = ("raise", r.exc)
+                    out.append((name, n2, m, flag, got, bool(oracle(m, eff))))
+        return None
+    del out[:]
+    try:
+        paths = explore(lambda ch: Interp(ctx.repo, ch), history)
+    except CannotDecide as e:
+        raise AnalysisError("consonance predicates in sequence: %s" % e)
+    bad = [o for o in out if not (o[4][0] == "return" and o[4][1] is o[5])] if len(paths) == 1 else [("?", "?", "?", "?", "forked into %d paths" % len(paths), "?")]
+    ctx.check(not bad, R, "history", mod.func("is_dissonant").where(), "the four predicates on C x 12 notes, flag True / False / default / True / default, in one run",
+              "%d answers differ from the table once other requests came first: e.g. %s('C', %r) (measure %s, flag %s) gives %s, required %s" % (
+                  (len(bad),) + tuple(bad[0][:6]) if bad else (0, "", "", "", "", "", "")))
